@@ -1,5 +1,6 @@
 import SafeC.Proofs.SortRel
 import SafeC.Proofs.Bsearch
+import SafeC.Proofs.SortSafe
 /-!
 # C16 — "qsort_s sorts and bsearch_s finds, for every array and comparator"
 
@@ -47,6 +48,47 @@ example : (match qsortChk unrepaired natCmp (okArgs 6 4) ⟨#[5, 3, 9, 1, 2, 8],
 example : (match qsortChk unrepaired ⟨fun _ _ _ _ _ => 1, 0, true⟩ (okArgs 5 1) ⟨#[5, 3, 9, 1, 2], [], 0⟩ with
     | .ok o => o.st.a.toList != [5, 3, 9, 1, 2] && o.st.a.toList.length == 5
     | .error _ => false) = true := by decide +kernel
+
+
+/-! ## (3) bounds of qsort_s — what is proved, and what is not
+
+NOT PROVED (full statements; they need the forest-shape invariant of smoothsort: the set bits of `p`, shifted by
+`pshift`, are the orders of Leonardo trees that tile `[0, head]` exactly):
+
+  theorem qsort_safe (c : Cmp α) (g : Args) (s : St α) (fx) (hfx : fx.ctz64 = true) (hv : the entry checks pass)
+      (hn : g.nmemb = s.a.size) (hw : g.nmemb * g.size ≤ 2 ^ 63) : ∃ o, qsortChk fx c g s = .ok o
+  theorem qsort_safe_partial … (fx.ctz64 = false) (hn' : g.nmemb ≤ 18454929) : ∃ o, qsortChk fx c g s = .ok o
+  theorem qsort_sorted (cmp a total preorder) … : the result is ordered (needs, on top: heap order in every tree, ascending roots)
+
+Until then, "no access outside nmemb*size bytes", termination and sortedness of qsort_s rest on the correspondence
+(guard pages on both sides in the harness = `Fault` in the model, compared on every input) and on the oracle.
+Proved below: the two building blocks that touch the array stay inside it, for every comparator. -/
+
+/-- `cycle` on at most 112 positions inside the array returns and keeps the size (no `ar[]` overrun, no position `≥ nmemb`) -/
+theorem cycle_safe (s : St α) (ar : List Nat) (h : ∀ y ∈ ar, y < s.a.size) (hl : ar.length ≤ 112) :
+    ∃ r, cycle s ar = .ok r ∧ r.a.size = s.a.size := cycle_tot s ar h hl
+
+/-- `sift` called on a Leonardo tree of order `pshift` rooted at `head` that lies inside the array
+    (`leo pshift ≤ head + 1`, `head < nmemb`), with `lp[0..pshift]` the Leonardo numbers: every comparison and move is
+    at positions `< nmemb`, no pointer below `base`, `ar[]` not overrun, the call returns — every comparator -/
+theorem sift_in_tree_safe (e : Env α) (s : St α) (n head pshift : Nat) (hs : s.a.size = n) (hh : head < n)
+    (hl : leo pshift ≤ head + 1) (hlp : LpOk e.lp pshift) (hp : pshift ≤ 111) :
+    ∃ r, sift e s head pshift = .ok r ∧ r.a.size = n := sift_safe e s n head pshift hs hh hl hlp hp
+
+/-- non-vacuity: the root of a tree of order 3 (5 elements) at position 4 of a 5-element array -/
+example : leo 3 ≤ 4 + 1 ∧ LpOk #[1, 1, 3, 5, 9] 3 := by
+  refine ⟨by decide, ?_⟩
+  intro i hi
+  have : i = 0 ∨ i = 1 ∨ i = 2 ∨ i = 3 := by omega
+  rcases this with h | h | h | h <;> subst h <;> decide
+
+/-- witness for the defect that makes `qsort_safe` false of the tree as it stands: the bit vector of a heap whose two
+    smallest trees are 33 orders apart (first reached with nmemb = leo 34 + 1 = 18454930): `pntz` as compiled
+    (`__builtin_ctz` on the low 32 bits, `tzcnt`) answers 32, the repaired `ntz` 33.  The failing run itself
+    (18454930 elements) is replayed on the real C and on the compiled model by the check (known finding
+    `qsort_s-ntz-counts-32-bits`). -/
+theorem pntz_witness : pntz unrepaired ⟨2 ^ 33 + 1, 0⟩ = 32 ∧ pntz allFixed ⟨2 ^ 33 + 1, 0⟩ = 33 ∧ leo 34 + 1 = 18454930 := by
+  refine ⟨by decide +kernel, by decide +kernel, by decide +kernel⟩
 
 /-! ## entry checks of `_qsort_s_chk` (doc comment: ESNULLP / ESLEMAX / ESNOSPC) -/
 
